@@ -225,6 +225,24 @@ Drift(t, k) ==
          THEN LET c == ConfRun(t, t.runs[k]) IN IF c = "conf" THEN Drift(t, k + 1) ELSE "run-" \o ToString(k) \o "-" \o c
          ELSE Drift(t, k + 1)
 
+(***************************************************************************)
+(* Beyond the listed properties (notes): the third-party parsers' verdicts *)
+(* are consistent with the interpreted framing rules (Fletcher-8, CRC-24Q, *)
+(* NMEA XOR checksum), and with checksum validation on every item the      *)
+(* reader delivers parsed satisfies them - on arbitrary streams too.       *)
+(***************************************************************************)
+EnvNote(t) ==
+    LET r == t.runs[1]
+        bad == {i \in 1..Len(t.recipe) : t.recipe[i].p # "NOISE" /\ t.recipe[i].ok = 1 /\ t.recipe[i].dd # "None" /\ r.validate = 1
+                                          /\ ~Interpreted(SubSeq(t.S, t.recipe[i].a + 1, t.recipe[i].b), t.recipe[i].p)}
+    IN IF bad = {} THEN "" ELSE "EXT:parser-accepted-frame-failing-its-checksum-rule:" \o t.recipe[CHOOSE i \in bad : TRUE].p
+ItemNote(t) ==
+    LET bad == {k \in 1..Len(t.runs) : t.runs[k].validate = 1 /\ t.runs[k].parsing = 1 /\
+                    \E i \in 1..Len(t.runs[k].items) :
+                        t.runs[k].items[i] # 0 /\ t.runs[k].pt[i] # "None" /\
+                        ~Interpreted(Raw(t, t.runs[k].items[i]), ProtOfRaw(Raw(t, t.runs[k].items[i])))}
+    IN IF bad = {} THEN "" ELSE "EXT:reader-delivered-parsed-item-failing-its-checksum-rule"
+
 Judge(t) == CASE t.prop = "C06" -> MonC06(t)
               [] t.prop = "C07" -> MonC07(t)
               [] t.prop = "C08" -> MonC08(t)
@@ -238,7 +256,11 @@ Next == /\ verdict = "pending"
         /\ LET t == Traces[tid]
                v == Judge(t)
                d == IF t.conf = 1 THEN Drift(t, 1) ELSE "conf"
+               x1 == IF Len(t.recipe) > 0 THEN EnvNote(t) ELSE ""
+               x2 == ItemNote(t)
            IN /\ verdict' = v
+              /\ (x1 # "" => PrintT("E " \o ToString(tid) \o " " \o x1))
+              /\ (x2 # "" => PrintT("E " \o ToString(tid) \o " " \o x2))
               /\ (v # "ok" => PrintT("V " \o ToString(tid) \o " " \o v))
               /\ (d # "conf" => PrintT("D " \o ToString(tid) \o " " \o d))
         /\ UNCHANGED tid
